@@ -623,7 +623,7 @@ func init() {
 	extraCommands["sched"] = schedMain
 	register(&CheckDef{
 		ID: "C17", Build: "instr", Run: c17Run, RunCase: c17RunCase,
-		Rule: "states = every schedule with at most k preemptions of 8 harnesses of 2-3 controlled threads (ExpandSpec on distinct roots that reuse the same URLs with different content; ExpandSchemaWithBasePath with private caches; with one shared library cache over the same documents; ExpandSchema with a shared cache and root; json.Marshal + typed pointer lookups on one shared document; resolve vs expand; three threads; first-ever calls racing on the lazy initialisation, each execution in a fresh process); scheduling points = every lock/once operation of the shimmed sync package, every hooked access to a package-level variable or map-typed struct field, every function entry of package spec; oracles on every schedule: no deadlock, every thread's answer equals its sequential answer (computed in a fresh process), no happens-before race on the hooked locations (vector clocks), package-level state equal to the sequential one",
+		Rule: "states = every schedule with at most k preemptions of 15 harnesses of 2-3 controlled threads (ExpandSpec on distinct roots that reuse the same URLs with different content; ExpandSchemaWithBasePath with private caches; one shared library cache over the same documents; ExpandSchema with a shared cache and root; a typed root and a cache shared by the Expand*WithRoot entry points; json.Marshal, gob encoding and typed pointer lookups on one shared document; resolve vs expand; three threads; expansion into the built-in meta-schemas; a loaded meta-schema expanded in place beside references into it; schemas with ids through one shared cache; ill-formed locations and ids; first-ever calls racing on the lazy initialisation, each execution in a fresh process); scheduling points = every lock/once/pool operation of the shimmed sync package, every hooked access to a package-level variable, and hooked accesses to map-typed struct fields at the sites where a profiling execution saw one map touched by two threads; oracles on every schedule: no deadlock, every thread's answer equals its sequential answer (computed in a fresh process), no happens-before race on the hooked locations (vector clocks), documents shared for reading unchanged, package-level state unchanged; auxiliary: the same bodies, four times over, free-running under the Go race detector",
 		Assumptions: []string{
 			"memory locations covered by the race check: package-level variables of package spec and map-typed struct fields accessed in package spec (e.g. the cache store, the circular-ref memo); other memory is only covered through the answers",
 			"code outside package spec (encoding/json, swag, jsonpointer) runs atomically between scheduling points",
